@@ -221,4 +221,210 @@ example : (runHistory ⟨.absent, none⟩
     [⟨demo, false, .none⟩, ⟨demoInvalid, true, .none⟩, ⟨demo, false, .none⟩, ⟨demo, true, .write 2 1⟩]).dest
     = .file demoText := by decide
 
+/-! ## block order (cited by other properties as C15_order_*) -/
+
+/-- **C15_order_sequence** — the statement order the translator reads from `write_to_file` today:
+    message, title, cells, blank, surfaces, blank, data inputs, the modifier cards of the data block,
+    and only then the blank line that ends the data block. (Re-checked against the source on every run.) -/
+theorem C15_order_sequence :
+    MontePyVerif.Gen.WriteOrder.sequence
+      = [.message, .title, .cells, .blank, .surfaces, .blank, .dataInputs, .modifiers, .blank] ∧
+    MontePyVerif.Gen.WriteOrder.recognised = true := by decide
+
+/-- **C15_commit_table** — `MCNP_InputFile.__exit__`/`_discard_temporary` commit with `os.replace` and
+    clean up with `os.remove`; `open` has both guards (tables read from the source on every run). -/
+theorem C15_commit_table :
+    "replace" ∈ MontePyVerif.Gen.WriteOrder.exitOsCalls ∧ "remove" ∈ MontePyVerif.Gen.WriteOrder.exitOsCalls ∧
+    MontePyVerif.Gen.WriteOrder.openGuards = ["FileExistsError", "IsADirectoryError"] ∧
+    MontePyVerif.Gen.WriteOrder.openEncoding = "ascii" := by decide
+
+theorem renderSeq_cons {p : Problem} {s : Seg} {t : List Seg} {out : List String}
+    (h : renderSeq p (s :: t) = some out) :
+    ∃ a b, segLines p s = some a ∧ renderSeq p t = some b ∧ out = a ++ b := by
+  simp only [renderSeq] at h
+  split at h
+  · next a b ha hb => exact ⟨a, b, ha, hb, (Option.some.inj h).symm⟩
+  · cases h
+
+theorem render_renderSeq {p : Problem} {out : List String} (h : render p = some out) :
+    renderSeq p MontePyVerif.Gen.WriteOrder.sequence = some out := by
+  unfold render complete at h
+  split at h
+  · split at h
+    · cases h; assumption
+    · cases h
+  · cases h
+
+/-- **C15_order_closed_form** — the complete text is: message lines, title, the cells' lines, one
+    empty line, the surfaces' lines, one empty line, the data inputs' lines, the modifier cards' lines,
+    one empty line — and nothing else. -/
+theorem C15_order_closed_form (p : Problem) (out : List String) (h : render p = some out) :
+    ∃ msg title cells surfs data mods,
+      segLines p .message = some msg ∧ linesOf [p.title] = some title ∧ linesOf p.cells = some cells ∧
+      linesOf p.surfaces = some surfs ∧ linesOf p.dataInputs = some data ∧ linesOf p.modifiers = some mods ∧
+      out = msg ++ title ++ cells ++ [""] ++ surfs ++ [""] ++ data ++ mods ++ [""] := by
+  have h0 := render_renderSeq h
+  rw [C15_order_sequence.1] at h0
+  obtain ⟨msg, r1, hm, h1, rfl⟩ := renderSeq_cons h0
+  obtain ⟨title, r2, ht, h2, rfl⟩ := renderSeq_cons h1
+  obtain ⟨cells, r3, hc, h3, rfl⟩ := renderSeq_cons h2
+  obtain ⟨b1, r4, hb1, h4, rfl⟩ := renderSeq_cons h3
+  obtain ⟨surfs, r5, hs, h5, rfl⟩ := renderSeq_cons h4
+  obtain ⟨b2, r6, hb2, h6, rfl⟩ := renderSeq_cons h5
+  obtain ⟨data, r7, hd, h7, rfl⟩ := renderSeq_cons h6
+  obtain ⟨mods, r8, hmo, h8, rfl⟩ := renderSeq_cons h7
+  obtain ⟨b3, r9, hb3, h9, rfl⟩ := renderSeq_cons h8
+  simp only [renderSeq, Option.some.injEq] at h9
+  simp only [segLines, Option.some.injEq] at hb1 hb2 hb3
+  subst hb1 hb2 hb3 h9
+  exact ⟨msg, title, cells, surfs, data, mods, hm, ht, hc, hs, hd, hmo, by simp [List.append_assoc]⟩
+
+/-- **C15_order_terminator_last** — the last line written is the blank line that ends the data block:
+    no card follows it. -/
+theorem C15_order_terminator_last (p : Problem) (out : List String) (h : render p = some out) :
+    ∃ body, out = body ++ [""] := by
+  obtain ⟨msg, title, cells, surfs, data, mods, -, -, -, -, -, -, rfl⟩ := C15_order_closed_form p out h
+  exact ⟨_, rfl⟩
+
+example : render demo = some demoText := by decide
+
+/-! ### the same, judged by MCNP's own reading of the file (`Spec/Blocks.lean`) -/
+
+theorem splitAtBlank_append (xs rest : List String) (h : xs.all (fun l => !isBlank l) = true) :
+    splitAtBlank (xs ++ "" :: rest) = (xs, some rest) := by
+  induction xs with
+  | nil => simp [splitAtBlank, show isBlank "" = true by decide]
+  | cons x t ih =>
+    simp only [List.all_cons, Bool.and_eq_true, Bool.not_eq_eq_eq_not, Bool.not_true] at h
+    simp only [List.cons_append, splitAtBlank, h.1, Bool.false_eq_true, ↓reduceIte]
+    rw [ih (by simpa using h.2)]
+
+theorem readBody_blocks (t : String) (cells surfs data rest : List String)
+    (hc : cells.all (fun l => !isBlank l) = true) (hs : surfs.all (fun l => !isBlank l) = true)
+    (hd : data.all (fun l => !isBlank l) = true) :
+    readBody (t :: (cells ++ "" :: (surfs ++ "" :: (data ++ "" :: rest))))
+      = ⟨[], some t, cells, surfs, data, 3, rest⟩ := by
+  simp only [readBody, splitAtBlank_append _ _ hc, splitAtBlank_append _ _ hs, splitAtBlank_append _ _ hd]
+
+/-- every formatted card line is a non-blank line -/
+def cardsOk (os : List Fmt) : Bool :=
+  os.all fun o => match o with
+    | .lines ls => ls.all (fun l => !isBlank l)
+    | .raises _ => true
+
+/-- the message block is `MESSAGE: …`, non-blank continuation lines and its blank delimiter -/
+def messageOk (p : Problem) : Bool :=
+  match p.message with
+  | none => true
+  | some (.lines (l :: t)) => startsMessage l && t.getLast? = some "" && (l :: t).dropLast.all (fun l => !isBlank l)
+  | some _ => false
+
+/-- the title is one line, and without a message block it does not announce one -/
+def titleOk (p : Problem) : Bool :=
+  match p.title with
+  | .lines [t] => p.message.isSome || !startsMessage t
+  | _ => false
+
+/-- the named, decidable hypothesis of `C15_order_blocks`: what C10 (physical lines) guarantees about the
+    formatted objects — no blank line inside a block, a one-line title, a well-formed message block -/
+def LinesOk (p : Problem) : Bool :=
+  messageOk p && titleOk p && cardsOk p.cells && cardsOk p.surfaces && cardsOk p.dataInputs && cardsOk p.modifiers
+
+theorem linesOf_noBlank {os : List Fmt} {out : List String} (h : linesOf os = some out) (hok : cardsOk os = true) :
+    out.all (fun l => !isBlank l) = true := by
+  induction os generalizing out with
+  | nil => simp only [linesOf, Option.some.injEq] at h; subst h; rfl
+  | cons o t ih =>
+    cases o with
+    | raises e => simp [linesOf] at h
+    | lines ls =>
+      simp only [linesOf, Option.map_eq_some_iff] at h
+      obtain ⟨rest, hr, rfl⟩ := h
+      simp only [cardsOk, List.all_cons, Bool.and_eq_true] at hok
+      simp only [List.all_append, Bool.and_eq_true]
+      exact ⟨hok.1, ih hr (by simpa [cardsOk] using hok.2)⟩
+
+/-- **C15_order_blocks** — MCNP's block reader applied to the complete text finds the title, exactly the
+    cells' lines in the cell block, exactly the surfaces' lines in the surface block, the data inputs'
+    lines *followed by the modifier cards' lines* in the data block, three blank-line delimiters, and
+    nothing after the terminator. -/
+theorem C15_order_blocks (p : Problem) (out : List String) (hok : LinesOk p = true) (h : render p = some out) :
+    ∃ msg t cells surfs data mods,
+      segLines p .message = some (if p.message.isSome then msg ++ [""] else []) ∧ p.title = .lines [t] ∧
+      linesOf p.cells = some cells ∧ linesOf p.surfaces = some surfs ∧
+      linesOf p.dataInputs = some data ∧ linesOf p.modifiers = some mods ∧
+      readBlocks out = { message := msg, title := some t, cells := cells, surfaces := surfs,
+                         data := data ++ mods, delimiters := 3, ignored := [] } := by
+  obtain ⟨msg, title, cells, surfs, data, mods, hm, ht, hc, hs, hd, hmo, rfl⟩ := C15_order_closed_form p out h
+  simp only [LinesOk, Bool.and_eq_true] at hok
+  obtain ⟨⟨⟨⟨⟨hmsg, htitle⟩, hcells⟩, hsurfs⟩, hdata⟩, hmods⟩ := hok
+  have nc := linesOf_noBlank hc hcells
+  have ns := linesOf_noBlank hs hsurfs
+  have nd : (data ++ mods).all (fun l => !isBlank l) = true := by
+    simp only [List.all_append, Bool.and_eq_true]
+    exact ⟨linesOf_noBlank hd hdata, linesOf_noBlank hmo hmods⟩
+  -- the title is one line
+  unfold titleOk at htitle
+  split at htitle
+  · next t hpt =>
+    have htl : title = [t] := by rw [hpt] at ht; simpa [linesOf] using ht.symm
+    subst htl
+    have hbody : ∀ pre : List String, pre ++ [t] ++ cells ++ [""] ++ surfs ++ [""] ++ data ++ mods ++ [""]
+        = pre ++ t :: (cells ++ "" :: (surfs ++ "" :: ((data ++ mods) ++ "" :: []))) := by
+      intro pre; simp [List.append_assoc]
+    -- message block or not
+    unfold messageOk at hmsg
+    split at hmsg
+    · next hnone =>
+      have hm0 : msg = [] := by simpa [segLines, segObjects, hnone, linesOf] using hm.symm
+      subst hm0
+      simp only [hnone, Option.isSome_none, Bool.false_or, Bool.not_eq_eq_eq_not, Bool.not_true] at htitle
+      refine ⟨[], t, cells, surfs, data, mods, by simp [segLines, segObjects, hnone, linesOf], hpt, hc, hs, hd, hmo, ?_⟩
+      rw [hbody []]
+      simp only [List.nil_append, readBlocks, htitle, Bool.false_eq_true, ↓reduceIte]
+      exact readBody_blocks t cells surfs (data ++ mods) [] nc ns nd
+    · next l tl hsome =>
+      simp only [Bool.and_eq_true, decide_eq_true_eq] at hmsg
+      obtain ⟨⟨hstart, hlast⟩, hnb⟩ := hmsg
+      have hm1 : msg = l :: tl := by simpa [segLines, segObjects, hsome, linesOf] using hm.symm
+      -- l :: tl = (l :: tl).dropLast ++ [""], and tl is not empty
+      have htl : tl ≠ [] := by intro h0; simp [h0] at hlast
+      have hsplit : l :: tl = (l :: tl).dropLast ++ [""] := by
+        have h1 := List.dropLast_concat_getLast htl
+        have h2 : tl.getLast htl = "" := by
+          have := List.getLast?_eq_some_getLast htl
+          rw [hlast] at this; exact (Option.some.inj this).symm
+        rw [h2] at h1
+        rw [List.dropLast_cons_of_ne_nil htl, List.cons_append, h1]
+      refine ⟨(l :: tl).dropLast, t, cells, surfs, data, mods, ?_, hpt, hc, hs, hd, hmo, ?_⟩
+      · simp only [hsome, Option.isSome_some, ↓reduceIte]
+        rw [← hsplit]; simp [segLines, segObjects, hsome, linesOf]
+      · rw [hm1, hbody (l :: tl)]
+        rw [hsplit, List.append_assoc, List.singleton_append]
+        rw [List.dropLast_cons_of_ne_nil htl] at hnb ⊢
+        simp only [List.cons_append, readBlocks, hstart, ↓reduceIte]
+        rw [← List.cons_append, splitAtBlank_append _ _ hnb]
+        simp only [readBody_blocks t cells surfs (data ++ mods) [] nc ns nd, List.dropLast_concat,
+          List.dropLast_cons_of_ne_nil (show tl.dropLast ++ [""] ≠ [] by simp)]
+    · cases hmsg
+  · cases htitle
+
+/-- **C15_order_nothing_lost** — corollary: MCNP ignores no card of a file written by `write_to_file`. -/
+theorem C15_order_nothing_lost (p : Problem) (out : List String) (hok : LinesOk p = true) (h : render p = some out) :
+    lostLines (readBlocks out) = [] ∧ (readBlocks out).delimiters = 3 := by
+  obtain ⟨msg, t, cells, surfs, data, mods, -, -, -, -, -, -, hrb⟩ := C15_order_blocks p out hok h
+  rw [hrb]; exact ⟨rfl, rfl⟩
+
+-- non-vacuity: the demo problem satisfies the hypothesis, and MCNP finds the modifier card in the data block
+example : LinesOk demo = true := by decide
+example : (readBlocks demoText).data = ["mode n", "imp:n 1 0"] ∧ (readBlocks demoText).ignored = [] := by decide
+
+/-- the order of the code before the repair (terminator first, modifier cards after it): refuted by the
+    same Spec — kept as the witness of defect DESIGN 7.3 #7 -/
+theorem C15_order_before_repair_refuted :
+    ∃ out, complete demo [.message, .title, .cells, .blank, .surfaces, .blank, .dataInputs, .blank, .modifiers, .blank] = some out ∧
+      lostLines (readBlocks out) = ["imp:n 1 0"] :=
+  ⟨["MESSAGE: outp=o", "", "demo", "1 0 -1", "2 0 1", "     imp:n=0", "", "1 so 1", "", "mode n", "", "imp:n 1 0", ""],
+   by decide, by decide⟩
+
 end MontePyVerif.Write
